@@ -465,8 +465,9 @@ func lateStartFamily(run *evid.Run) int {
 // message's verdict) and, in LMTP mode, for C13 (each recipient's own status);
 // it reports under the property whose check is running it.
 func vprop(run *evid.Run) string {
-	if run.Prop == "C13" {
-		return "C13"
+	if run.Prop == "C13" || run.Prop == "C17" {
+		// (C17: the error the backend returned for THIS message is the one the peer is owed)
+		return run.Prop
 	}
 	return "C04" // (when C20 runs the family only hangs and left-behind goroutines are its business)
 }
